@@ -88,7 +88,7 @@ CHECKS = {
         design="6/C16"),
     "C17": dict(
         technique="Lean 4 proof (skeleton of skops.cli._convert from the translator: no file operation at all when the object cannot be persisted; output path, frame and warning condition on success) + runs of the real CLI compared with the model and with the unpickled object",
-        text="failed_convert_untouched / converted for every configuration and file-system state, with the dump outcome taken from the value model (encode); skeletons tied by rfl; real `skops convert` over zoo, user-class, unpersistable and generated objects x output option x verbosity x pre-existing output x 7 input-name shapes: loaded archive equals pickle.load(input), input bytes, residue, warning text equals get_untrusted_types, op trace / log levels / outcome equal the model's.",
+        text="failed_convert_untouched / converted for every configuration and file-system state, with the dump outcome taken from the value model (encode); default_output_name / default_output_name_no_suffix: for every input name <base>.<ext> the default output is <cwd>/<base>.skops (only the last suffix replaced), and a name with no dot, only a leading dot or a trailing dot keeps its whole name (lemmas stem_base_ext, stem_no_dot, stem_leading_dot, stem_trailing_dot about the model of PurePath.stem, itself compared with the real CLI on every run); skeletons tied by rfl; real `skops convert` over zoo, user-class, unpersistable and generated objects x output option x verbosity x pre-existing output x 7 input-name shapes: loaded archive equals pickle.load(input), input bytes, residue, warning text equals get_untrusted_types, op trace / log levels / outcome equal the model's.",
         note="Trusted: Lean kernel; translate/skeleton.py; value model (C04/C05) for 'loads to an equal object'; comparator; pickle of the harness's own objects as reference.",
         design="6/C17"),
     "C18": dict(
